@@ -11,6 +11,12 @@ VERIF = os.path.dirname(os.path.dirname(os.path.abspath(__file__)))
 MC = "model_checking"
 
 CLAIMS = {
+    "C20": dict(
+        engine="NixModel",
+        technique="TLA+ spec NixModel with a Copy action (CopyComplete, CopyIndependent, FreshIdsUnique checked by TLC) + replay of every exported transition with the copied entities bound by primary path, full projection, container probes, and a cross-file copy probe",
+        text="The Copy action duplicates the owned subtree, remaps links among the copied entities and keeps or renews the ids; TLC checks CopyComplete (same content recursively, links remapped, nothing else changed), CopyIndependent, EidUnique and the delete / refusal frame conditions over every copy of a block with internal links, link-free arrays, tags, sections and properties into every legal parent under every name, followed by every single mutation of either side; each transition is replayed, the whole file projected (ids through an injective registry: fresh ids must be new and unique, kept ids equal), every container of the copy probed by name / id / index, reopened, and one entity per state copied into a second file with either id policy (content, ids, returned handle, changes of one side invisible on the other).",
+        note="Trusted: TLC; copies are generated only for subtrees closed under links (links leaving the subtree: left open); keep-id copies inside one file only in the thorough tier without deletes (two entities with one id: recorded design-level finding); data frames are outside the entity-graph model.",
+        design_ref="6/C20"),
     "C16": dict(
         engine="NixFrame",
         technique="TLA+ spec NixFrame (columns x rows of write stamps) checked by TLC + replay of every exported transition against DataFrame, all read paths, reopen",
